@@ -237,12 +237,13 @@ func (v *vbint) UnmarshalBinary(data []byte) error {
 			return unmarshalErr(v, "", "size exceeded")
 		}
 		if encodedByte&128 == 0 {
-			break
+			*v = vbint(value)
+			return nil
 		}
 		multiplier = multiplier * 128
 	}
-	*v = vbint(value)
-	return nil
+	// the last byte still had the continuation bit set
+	return unmarshalErr(v, "", "missing data")
 }
 
 // wire types
